@@ -306,6 +306,9 @@ template<Fn F, size_t L, class Elem = Elem16, class MM = TrackMM> struct Track
 						{ long long v = (long long)((oldsegs[s2].second << 32) + ull(p - base)); if (lo < 0 || v < lo) lo = v; if (v > hi) hi = v; ++nd; break; }
 					}
 			out += "/d" + std::to_string(lo) + ":" + std::to_string(hi) + "x" + std::to_string(nd);
+			// the element VALUES (compared with the regenerated ArrayShifter run on a cell function): sum of (i + 1) * value mod 1e9+7
+			ull h = 0; for (size_t i = 0; i < cnt; ++i) h = (h + (ull(i + 1) * (arr[i].v % 1000000007ULL)) % 1000000007ULL) % 1000000007ULL;
+			out += "/v" + std::to_string(h);
 		}
 	}
 };
